@@ -114,7 +114,8 @@ Definition show_store (st : store) (disk_nc : list (str * value)) : list val :=
 (* -- phases *)
 Definition phase := (list sspec * list value * option (list nat) * bool)%type.
 
-Definition kind_of (k : Z) : skind := if k =? 0 then dict_kind else dir_kind.
+Definition kind_of (k : Z) : skind :=
+  if k =? 0 then dict_kind else if k =? 2 then dir_kind_fixed else dir_kind.
 
 (** close + re-open in append mode: the member lists are re-read from disk,
     where a not-completed name exists once (last write wins) *)
